@@ -272,7 +272,101 @@ def run_case(case, env, res):
         res.violation("C05:%s:%s" % (surface, errs[0][0]), "%s %s render %s pad %s term %s: %r" % (surface, case["kind"], rsize, pd if surface != "format" else case["spec"], term, errs[:4]), case)
 
 
+def run_format_history(case, env, res):
+    """One image instance formatted repeatedly while the terminal / cell ratio change in
+    between (dynamic and fixed sizes): every formatted output is judged on its own."""
+    import term_image
+    from term_image.image import Size
+
+    from ..lib import set_terminal, style_classes
+
+    rnd = random.Random(case["img_seed"])
+    personality = vt_personality(env.persona_name)
+    cls = style_classes()[case["kind"]]
+    set_terminal(env, *case["steps"][0]["term"], 4, 8)
+    pil = make_image(rnd, case["src"][0], case["src"][1], "RGBA")
+    img = cls(pil, **case["size_kw"])
+    # the un-padded reference render comes from a second instance, so that the history of
+    # the instance under observation consists of the padded formats only
+    ref = cls(pil, **case["size_kw"])
+    if case.get("size_enum"):
+        img.size = ref.size = getattr(Size, case["size_enum"])
+    style = case.get("style", "")
+    try:
+        for i, st in enumerate(case["steps"]):
+            set_terminal(env, *st["term"], 4, 8)
+            term_image.set_cell_ratio(st["ratio"])
+            term = tuple(st["term"])
+            spec = st["spec"]
+            W, H = ref.rendered_size
+            plain = format(ref, "1.1" + style)
+            padded = format(img, spec + style)
+            pw, ph = st["fmt_dims"]
+            PW, PH = model.aligned_box((W, H), (pw, ph), term)
+            hal = {"<": 0, "|": 1, ">": 2, None: 1}[st["fmt_h"]]
+            val = {"^": 0, "-": 1, "_": 2, None: 1}[st["fmt_v"]]
+            best = None
+            for l in range(PW - W + 1):
+                r_ = PW - W - l
+                if not model.side_ok(hal, l, r_):
+                    continue
+                for t in range(PH - H + 1):
+                    b_ = PH - H - t
+                    if not model.side_ok(val, t, b_):
+                        continue
+                    e = check_padded(padded, plain, (W, H), (l, t, r_, b_), " ", personality, "format-history", (i, i + 1))
+                    if best is None or len(e) < len(best):
+                        best = e
+                    if not e:
+                        break
+                if best == []:
+                    break
+            res.count("padded outputs executed")
+            res.count("surface format() histories (same instance, resizes in between)")
+            if best:
+                res.violation("C05:format-history:%s" % best[0][0], "%s image %s, step %d of %s: spec %r on terminal %s (rendered %dx%d): %r" % (case["kind"], case.get("size_enum") or case["size_kw"], i, [s_["spec"] + "@" + str(s_["term"]) for s_ in case["steps"]], spec, term, W, H, best[:3]), case)
+                return
+    finally:
+        term_image.set_cell_ratio(0.5)
+        img.close()
+        ref.close()
+    res.case(("format-history", case["kind"], str(case["steps"])))
+    res.sample(case)
+
+
+def gen_format_history(rnd):
+    def one_spec():
+        h = rnd.choice([None, "<", "|", ">"])
+        v = rnd.choice([None, "^", "-", "_"])
+        pw = rnd.choice([None, 0, rnd.randint(1, 30), 70])
+        ph = rnd.choice([None, 0, rnd.randint(1, 16), 32])
+        spec = (h or "") + ("" if pw is None else str(pw))
+        if v is not None or ph is not None:
+            spec += "." + (v or "") + ("" if ph is None else str(ph))
+        return dict(spec=spec, fmt_h=h, fmt_v=v, fmt_dims=[pw or 0, -2 if ph is None else ph])
+
+    kind = rnd.choice(["block", "block", "kitty", "iterm2"])
+    base = one_spec()
+    steps = []
+    for _ in range(rnd.randint(2, 5)):
+        sp = base if rnd.random() < 0.6 else one_spec()
+        steps.append(dict(sp, term=[rnd.choice([80, 40, 20, rnd.randint(4, 60)]), rnd.choice([30, 20, 10, rnd.randint(3, 30)])], ratio=rnd.choice([0.5, 0.5, 1.0, 0.25])))
+    sizing = rnd.random()
+    case = dict(surface="format-history", kind=kind, src=[rnd.randint(1, 300), rnd.randint(1, 200)], img_seed=rnd.getrandbits(32), steps=steps, size_kw={}, size_enum=None)
+    if sizing < 0.6:
+        case["size_enum"] = rnd.choice(["FIT", "FIT", "AUTO", "FIT_TO_WIDTH"])
+    elif sizing < 0.8:
+        case["size_kw"] = dict(width=rnd.randint(1, 8))
+    else:
+        case["size_kw"] = dict(width=rnd.randint(1, 8), height=rnd.randint(1, 5))
+    if kind != "block":
+        case["style"] = "+" + rnd.choice(["L", "W"])
+    return case
+
+
 def gen(rnd, persona):
+    if rnd.random() < 0.12:
+        return gen_format_history(rnd)
     surface = rnd.choice(["pad", "pad", "render", "iterator", "format"])
     term = [rnd.randint(1, 60), rnd.randint(1, 30)]
     W, H = rnd.randint(1, 12), rnd.randint(1, 8)
@@ -335,7 +429,10 @@ def run_shard(shard, env):
         cases = (gen(rnd, shard["persona"]) for _ in range(shard["count"]))
     for case in cases:
         try:
-            run_case(case, env, res)
+            if case["surface"] == "format-history":
+                run_format_history(case, env, res)
+            else:
+                run_case(case, env, res)
         except Exception as e:
             res.violation("C05:exception:" + type(e).__name__, traceback.format_exc()[-1500:], case)
         if res.too_many():
